@@ -143,6 +143,10 @@ class Builder:
         s.plain_needed = set()     # defined functions that are called (not inlined) -> must be emitted as plain C
         s.address_taken = set()
 
+    def is_noinline(s, cn):
+        if cn in s.noinline: return True
+        return any(p.endswith('*') and cn.startswith(p[:-1]) for p in s.noinline)
+
     # ---- may-throw analysis (context-insensitive, conservative)
     def may_throw(s, fname, stack=()):
         if fname in s._may_throw: return s._may_throw[fname]
@@ -224,7 +228,7 @@ class Builder:
                             b = Ins(None, 'br', VoidT(), (None, normal, None), n.raw); b.attrs['as_pred'] = orig; X.blocks[cur].append(b)
                         continue
                     g = M.funcs.get(cn)
-                    if g is not None and s.inline and cn not in s.noinline and cn not in stack and not g.vararg:
+                    if g is not None and s.inline and not s.is_noinline(cn) and cn not in stack and not g.vararg:
                         # ---- inline
                         s.counter += 1; k = s.counter
                         if k > s.max_insts: raise Unsupported("too many inlined instances")
